@@ -277,6 +277,53 @@ Fixpoint jcompact (instr esc : bool) (b : bytes) : bytes :=
     else c :: jcompact (c =? 34) false b'
   end.
 
+(* ---------- the writer side ----------
+   An io.Writer that accepts `room` more bytes and then fails (the pipe to a peer that
+   died / closed its end); None = never fails.  A Write that does not fit delivers what
+   fits and returns an error ("n < len(p), err != nil"). *)
+Record sink := mk_sink { k_out : bytes; k_room : option nat }.
+Inductive wr := WOk (k : sink) | WErr (k : sink).
+
+Definition sink_write (p : bytes) (k : sink) : wr :=
+  match k_room k with
+  | None => WOk (mk_sink (k_out k ++ p) None)
+  | Some r =>
+    if (length p <=? r)%nat then WOk (mk_sink (k_out k ++ p) (Some (r - length p)%nat))
+    else WErr (mk_sink (k_out k ++ firstn r p) (Some 0%nat))
+  end.
+
+(* writeDelimitedMessageRaw = WriteDelimitedMessage after proto.Marshal = protoEncoder.Encode:
+   two Writes, the prefix and the data; the data is not written when the prefix failed *)
+Definition write_delimited (m : bytes) (k : sink) : wr :=
+  match sink_write (be32 (N.of_nat (length m))) k with
+  | WErr k' => WErr k'
+  | WOk k1 => sink_write m k1
+  end.
+
+(* jsonEncoder.Encode (v = the marshalled value, never empty): Write(data); then a
+   best-effort newline whose error is dropped *)
+Definition json_encode (v : bytes) (k : sink) : wr :=
+  match sink_write v k with
+  | WErr k' => WErr k'
+  | WOk k1 => match sink_write [10] k1 with WOk k2 => WOk k2 | WErr k2 => WOk k2 end
+  end.
+
+(* the caller's loop: encode message after message until the first error.
+   Result: how many Encode calls returned nil, whether one failed, the sink *)
+Fixpoint write_stream (enc : bytes -> sink -> wr) (ms : list bytes) (k : sink) : nat * bool * sink :=
+  match ms with
+  | [] => (O, false, k)
+  | m :: ms' =>
+    match enc m k with
+    | WErr k' => (O, true, k')
+    | WOk k' => let '(n, failed, k'') := write_stream enc ms' k' in (S n, failed, k'')
+    end
+  end.
+
+Definition sink_of (room : option nat) : sink := mk_sink [] room.
+Definition wire_of (enc : bytes -> sink -> wr) (ms : list bytes) (room : option nat) : bytes :=
+  k_out (snd (write_stream enc ms (sink_of room))).
+
 (* ---------- case decoding / result encoding (extracted glue) ---------- *)
 Definition un_tail (s : sx) : option tail_t :=
   match s with
@@ -363,6 +410,57 @@ Definition run_c09_jsonrt (args : list sx) : sx :=
     ret (sx_jall (json_all jscan (mk_src (json_write_all vs) sch eg TEOF)))
   | _ => None end).
 
+(* room: -1 = a writer that never fails *)
+Definition un_room (s : sx) : option (option nat) :=
+  match s with I z => Some (if (z <? 0)%Z then None else Some (Z.to_nat z)) | _ => None end.
+
+Definition sx_written (r : nat * bool * sink) : sx :=
+  let '(n, failed, k) := r in L [B (k_out k); sx_nat n; sx_bool failed].
+
+(* (messages room) -> (bytes-on-the-wire encodes-ok failed), through writeDelimitedMessageRaw /
+   WriteDelimitedMessage / protoEncoder.Encode on a writer that fails after `room` bytes *)
+Definition run_c09_wsink (args : list sx) : sx :=
+  or_bad (match args with
+  | [ms; room] =>
+    do ms <- un_listof un_B ms; do room <- un_room room;
+    ret (sx_written (write_stream write_delimited ms (sink_of room)))
+  | _ => None end).
+
+(* (dir max messages room sched eager) -> (encodes-ok failed ((messages) final)): what one side
+   encodes (until its writer fails) is what the other side decodes, the pipe then being closed.
+   dir 0: WriteDelimitedMessage -> protoDecoder (no limit); dir 1: protoEncoder -> ReadDelimitedMessage *)
+Definition run_c09_pipe (args : list sx) : sx :=
+  or_bad (match args with
+  | [dir; mx; ms; room; sch; eg] =>
+    do dir <- un_bool dir; do mx <- un_N mx; do ms <- un_listof un_B ms; do room <- un_room room;
+    do sch <- un_listof un_nat sch; do eg <- un_bool eg;
+    let '(n, failed, k) := write_stream write_delimited ms (sink_of room) in
+    let s := mk_src (k_out k) sch eg TEOF in
+    let r := if dir then read_all mx s else decode_all s in
+    ret (L [sx_nat n; sx_bool failed; L [L (map B (fst r)); sx_final_dec (snd r)]])
+  | _ => None end).
+
+(* (values room-class) -> per Encode call: the compacted output and its last byte; then the whole run.
+   room-class: -1 never fails, 0 fails at once, 1 fails exactly at the newline of the LAST value, 2 fails
+   inside the last value (the marshalled length is only known to the Go side: protojson's spacing varies) *)
+Definition json_encode_alone (v : bytes) : sx :=
+  match json_encode v (sink_of None) with
+  | WOk k => L [B (jcompact false false (k_out k)); sx_N (last (k_out k) 0)]
+  | WErr _ => sx_err "write"
+  end.
+Definition run_c09_jsonwrite (args : list sx) : sx :=
+  or_bad (match args with
+  | [vs; cls] =>
+    do vs <- un_listof un_B vs; do cls <- un_I cls;
+    let total := length (json_write_all vs) in
+    let room := if (cls <? 0)%Z then None
+                else if (cls =? 0)%Z then Some O
+                else if (cls =? 1)%Z then Some (total - 1)%nat
+                else Some (total - 2)%nat in
+    let '(n, failed, k) := write_stream json_encode vs (sink_of room) in
+    ret (L [L (map json_encode_alone vs); sx_nat n; sx_bool failed; B (jcompact false false (k_out k))])
+  | _ => None end).
+
 Definition c09_table : list (bytes * (list sx -> sx)) :=
   [ (bs "c09.raw", run_c09_read);
     (bs "c09.read", run_c09_read);
@@ -370,4 +468,7 @@ Definition c09_table : list (bytes * (list sx -> sx)) :=
     (bs "c09.dec", run_c09_dec);
     (bs "c09.write", run_c09_write);
     (bs "c09.json", run_c09_json);
-    (bs "c09.jsonrt", run_c09_jsonrt) ].
+    (bs "c09.jsonrt", run_c09_jsonrt);
+    (bs "c09.wsink", run_c09_wsink);
+    (bs "c09.pipe", run_c09_pipe);
+    (bs "c09.jsonwrite", run_c09_jsonwrite) ].
